@@ -86,7 +86,7 @@ Proof. vm_compute. reflexivity. Qed.
 From AV.Model Require Import Interp.
 From AV.Spec Require Import WorldSpec.
 From AV.Proofs Require Import WorldProofs.
-(** WHOLE HISTORIES: the type probes (downcasts of the vector, of element references and of element handles succeed for the element type and for no other; reported type id and layout) and the refused swap with a value of another type (PType, that value destroyed once, nothing else changes) are steps of the history fragment of AV.Props.C01 ([WorldSpec.sp_look], cases OProbeTypes / OSwapWrong): they hold at any point of any history. *)
+(** WHOLE HISTORIES: the run-time type checks are steps of the history fragment of AV.Props.C01 and hold at any point of any history: a value of another type offered to the erased push / insert is refused with PType BEFORE anything else is looked at (also before the index), destroyed once, and nothing else changes ([WorldSpec.sp_offer_wrong], [C04_wrong_offer_in_histories]); a removal handle whose downcast to another type is refused behaves as a dropped handle ([C04_refused_downcast_in_histories]); the type probes (downcasts of the vector, of element references and of element handles succeed for the element type and for no other; reported type id and layout) and the refused swap with a value of another type ([WorldSpec.sp_look], cases OProbeTypes / OSwapWrong: [C04_type_checks_in_histories]). *)
 Theorem C04_type_checks_in_histories :
   forall (c : cfg) (w : world) (st : astate) (o : op) (r : sres),
          cfg_wf c ->
@@ -94,9 +94,44 @@ Theorem C04_type_checks_in_histories :
          ufuse (wuw w) = None -> sp_look c st (unext (wuw w)) o = Some r -> res_matches c w (exec c o w) r.
 Proof. exact exec_look. Qed.
 
+Theorem C04_wrong_offer_in_histories :
+  forall (c : cfg) (w : world) (st0 : astate) (vid : nat) (s : src) (k : N) 
+           (action : vsrc -> M st unit) (r : sres),
+         WRep c w st0 ->
+         ufuse (wuw w) = None ->
+         s = SWrong k \/ s = SBoxWrong k ->
+         sp_offer_wrong c st0 (unext (wuw w)) vid k = Some r ->
+         res_matches c w ((do o <- make_offer c s; offer_into c vid o action;; ret (0, [])) w) r.
+Proof. exact exec_offer_wrong. Qed.
+
+Theorem C04_refused_downcast_in_histories :
+  forall (c : cfg) (w : world) (st : astate) (vid : nat) (k : tkind) (idx : N) (r0 : sres),
+         cfg_wf c ->
+         WRep c w st ->
+         ufuse (wuw w) = None ->
+         sp_take c st (unext (wuw w)) vid k match k with
+                                            | TPop => 0
+                                            | _ => idx
+                                            end KDrop = Some r0 ->
+         res_matches c w (exec c (ODownWrong vid k idx) w)
+           (if s_out r0 =? 0
+            then
+             {|
+               s_out := 0;
+               s_pk := 0;
+               s_ret := [1; c_sz c; 0; 0; 0];
+               s_evs := s_evs r0;
+               s_st := s_st r0;
+               s_nx := s_nx r0
+             |}
+            else r0).
+Proof. exact exec_down_wrong. Qed.
+
 (* ---- end histories ---- *)
 Print Assumptions C04_wrong_type_owned_value_rejected.
 Print Assumptions C04_wrong_type_borrowed_value_rejected.
 Print Assumptions C04_right_type_check_transparent.
 Print Assumptions C04_splice_wrong_type.
 Print Assumptions C04_type_checks_in_histories.
+Print Assumptions C04_wrong_offer_in_histories.
+Print Assumptions C04_refused_downcast_in_histories.
